@@ -61,6 +61,7 @@ class MockCA:
             authz_status={}, authz_perm=None, chall_perm=None, eab_keys={}, require_eab=False,
             delay=None, validate=None, tls=None, seed=0, tos=True, orders_field=True,
             cert_san_override=None, wildcard_field=True, port=0, bind="127.0.0.1", host=None,
+            retry_after=None,      # value of a Retry-After header on the answers to authorization / order polls (RFC 8555 7.5.1)
         )
         self.o.update(o)
         self.mu = threading.RLock()
@@ -730,7 +731,10 @@ class MockCA:
         if fault and fault.startswith("obj:status="):
             body["status"] = fault.split("=")[1]
             det["status"] = body["status"]
-        return self._json(200, body)
+        return self._json(200, body, self._poll_headers())
+
+    def _poll_headers(self):
+        return {"Retry-After": str(self.o["retry_after"])} if self.o["retry_after"] is not None else None
 
     def _conclude(self, a):
         ok = True
@@ -783,7 +787,7 @@ class MockCA:
         if fault == "obj:nocert":
             body.pop("certificate", None)
         ev["detail"] = {"order": obj, "status": body["status"], "has_cert_url": "certificate" in body}
-        return self._json(200, body)
+        return self._json(200, body, self._poll_headers())
 
     def _do_finalize(self, v, hdr, pj, obj, fault, ev):
         o = self.orders.get(obj)
